@@ -12,7 +12,7 @@ ALL_OPS = ["New", "Append", "SetIndices", "SetMaterial", "SetMaterials", "SetAtt
            "CopyAttr", "Translate", "Scale", "Rotate", "ApplyTRS", "TranslateAttr", "ScaleAttr",
            "RotateAttr", "CenterAttr", "ToPointCloud", "Unweld", "RemoveUnreferenced", "FlipWinding",
            "Weld", "RemoveNullFaces", "Split", "Filter", "Crop", "Repeat", "Export", "Scan",
-           "Normalize", "FlatNormals", "SmoothNormals", "Laplacian"]
+           "Normalize", "FlatNormals", "SmoothNormals", "Laplacian", "Misc"]
 
 Q = 1024
 
